@@ -127,8 +127,9 @@ func Plans() map[string]*Plan {
 			Parts: []Part{
 				concPart("C05", "S-CONC", 24000, 2400000, p, RunOpts{}),
 				crashPart("C05", "S-CRASH-RAND", 18000, 1800000, p, RunOpts{}),
+				{Name: "S-CRASH-ENUM", Quick: 500, Thorough: 50000, Gen: func(seed uint64) *RunSpec { return GenCrashEnum("C05", seed) }, Exec: ExecCrashEnum},
 			},
-			Rule:       "S-CONC and S-CRASH-RAND; list-integrity checked after every mutating filesystem call of every process and after every crash; non-trivial = >=3 schedule segments and >=2 list versions; distinct = distinct projected event-sequence hash",
+			Rule:       "S-CONC, S-CRASH-RAND and S-CRASH-ENUM (every crash point of sampled operation instances, as in C06); list-integrity checked after every mutating filesystem call of every process and after every crash; non-trivial = >=3 schedule segments and >=2 list versions; distinct = distinct projected event-sequence hash",
 			Nontrivial: concNontrivial}
 	}
 	// ---- C06
